@@ -202,6 +202,208 @@ func runC12(w *World, r *Report) {
 		})
 	}
 
+	// ---- map keys: the writer's and the reader's treatment agree
+	r.Rule("C12.key-codec-symmetric", "map keys are json-encoded by the writer and json-decoded by the reader under the same condition (today: unconditionally)", 2)
+	{
+		condClass := func(c ssa.Value) string {
+			if e, ok := c.(*ssa.Extract); ok && e.Index == 1 {
+				if ta, ok := e.Tuple.(*ssa.TypeAssert); ok {
+					return "exact type " + ta.AssertedType.String()
+				}
+			}
+			if _, x, y, ok := asCmp(c); ok {
+				for _, side := range [][2]ssa.Value{{x, y}, {y, x}} {
+					if call, ok := side[0].(*ssa.Call); ok && strings.HasSuffix(calleeFullName(call), ".Kind") {
+						if k, ok := constInt(side[1]); ok {
+							return fmt.Sprintf("reflect kind %d", k)
+						}
+					}
+				}
+			}
+			return "other: " + valText(c)
+		}
+		// writer: the key under which a map entry is stored
+		fMV := w.Field("internal/serialization", "internalStruct", "MapValues")
+		var wKey ssa.Value
+		var wAt ssa.Instruction
+		instrs(im, func(in ssa.Instruction) {
+			if mu, ok := in.(*ssa.MapUpdate); ok && isLoadOfField(mu.Map, fMV) {
+				wKey, wAt = mu.Key, mu
+			}
+		})
+		if wKey == nil {
+			undecidedf("C12.key-codec-symmetric: no write to internalStruct.MapValues in internalMarshal")
+		}
+		isMarshalKey := func(v ssa.Value) *ssa.Call {
+			if e, ok := v.(*ssa.Extract); ok && e.Index == 0 {
+				if c, ok := e.Tuple.(*ssa.Call); ok && strings.HasSuffix(calleeFullName(c), "sonic.MarshalString") {
+					return c
+				}
+			}
+			return nil
+		}
+		var wConds []string
+		wEncoded := false
+		var visit func(v ssa.Value, d int)
+		seen := map[ssa.Value]bool{}
+		visit = func(v ssa.Value, d int) {
+			if d > 6 || seen[v] {
+				return
+			}
+			seen[v] = true
+			if c := isMarshalKey(v); c != nil {
+				wEncoded = true
+				return
+			}
+			if ph, ok := v.(*ssa.Phi); ok {
+				// the conditions that separate the edges: guards of the encode call's block that the join lacks
+				joined := map[*ssa.If]bool{}
+				for _, g := range guardsOf(ph.Block()) {
+					joined[g.at] = true
+				}
+				for _, e := range ph.Edges {
+					if c := isMarshalKey(e); c != nil {
+						wEncoded = true
+						for _, g := range guardsOf(c.Block()) {
+							if !joined[g.at] {
+								wConds = append(wConds, condClass(g.cond))
+							}
+						}
+					} else {
+						visit(e, d+1)
+					}
+				}
+				if len(wConds) == 0 {
+					wConds = append(wConds, "other: unresolved join")
+				}
+				return
+			}
+			// a raw (not json-encoded) key on this edge
+		}
+		visit(wKey, 0)
+		// reader: the decode of the stored key
+		var rCall *ssa.Call
+		instrs(iu, func(in ssa.Instruction) {
+			if c, ok := in.(*ssa.Call); ok && strings.HasSuffix(calleeFullName(c), "sonic.UnmarshalString") {
+				rCall = c
+			}
+		})
+		var rConds []string
+		if rCall != nil {
+			for _, g := range guardsOf(rCall.Block()) {
+				if guardErrNil(g) || guardErrNonNil(g) {
+					continue
+				}
+				// dispatch on the record's discriminators, registry hits, range header
+				if _, x, y, ok := asCmp(g.cond); ok {
+					onRecord := false
+					for _, side := range []ssa.Value{x, y} {
+						if c, ok := side.(*ssa.Call); ok && isBuiltin(c, "len") {
+							side = c.Call.Args[0]
+						}
+						if f, _ := loadedField(side); f != nil {
+							onRecord = true
+						}
+						if p, ok := side.(*ssa.Parameter); ok && namedOf(p.Type()) == isT {
+							onRecord = true
+						}
+					}
+					if onRecord {
+						continue
+					}
+				}
+				if e, ok := g.cond.(*ssa.Extract); ok {
+					if _, isLk := e.Tuple.(*ssa.Lookup); isLk {
+						continue
+					}
+					if _, isNext := e.Tuple.(*ssa.Next); isNext {
+						continue
+					}
+				}
+				rConds = append(rConds, condClass(g.cond))
+			}
+		}
+		sort.Strings(wConds)
+		sort.Strings(rConds)
+		wDesc, rDesc := "always json-encoded", "always json-decoded"
+		if !wEncoded {
+			wDesc = "never json-encoded"
+		}
+		if len(wConds) > 0 {
+			wDesc = "json-encoded unless/if [" + strings.Join(wConds, "; ") + "]"
+		}
+		if rCall == nil {
+			rDesc = "never json-decoded"
+		} else if len(rConds) > 0 {
+			rDesc = "json-decoded unless/if [" + strings.Join(rConds, "; ") + "]"
+		}
+		agree := (wEncoded == (rCall != nil)) && strings.Join(wConds, ";") == strings.Join(rConds, ";")
+		for _, c := range append(append([]string{}, wConds...), rConds...) {
+			if agree && strings.HasPrefix(c, "other") {
+				undecidedf("C12.key-codec-symmetric: writer and reader treat map keys conditionally under a condition the rule cannot classify (%s)", c)
+			}
+		}
+		r.Check(agree, "C12.key-codec-symmetric", "map key: writer "+"vs reader", wAt.Pos(), "writer: "+wDesc+"; reader: "+rDesc,
+			"the writer and the reader treat map keys under different conditions — writer: "+wDesc+"; reader: "+rDesc+" — a key of a type on which the two conditions differ comes back as a different key, silently")
+		// the decoded key is what is inserted
+		if rCall != nil && len(rConds) == 0 {
+			okIns := false
+			instrs(iu, func(in ssa.Instruction) {
+				if c, ok := in.(*ssa.Call); ok && strings.HasSuffix(calleeFullName(c), "reflect.Value).SetMapIndex") && instrDominates(rCall, c) {
+					okIns = true
+				}
+			})
+			r.Check(okIns, "C12.key-codec-symmetric", "reader inserts after decoding the key", rCall.Pos(), "every SetMapIndex is dominated by the key decode", "a map entry can be inserted without its key having been decoded")
+		}
+	}
+
+	// ---- registry is a bijection built insert-only
+	r.Rule("C12.registry-bijective", "GenericRegister writes name->type and type->name together, each only when BOTH the name and the type are absent; nobody else writes the registries", 2)
+	{
+		isGlobalLoad := func(v ssa.Value, gv *types.Var) bool {
+			u, ok := v.(*ssa.UnOp)
+			if !ok {
+				return false
+			}
+			g, ok := u.X.(*ssa.Global)
+			return ok && g.Object() == types.Object(gv)
+		}
+		missGuard := func(b *ssa.BasicBlock, gv *types.Var) bool {
+			return hasGuard(b, func(g guard) bool {
+				e, ok := g.cond.(*ssa.Extract)
+				if !ok || e.Index != 1 || g.pol {
+					return false
+				}
+				lk, ok := e.Tuple.(*ssa.Lookup)
+				return ok && lk.CommaOk && isGlobalLoad(lk.X, gv)
+			})
+		}
+		nw := 0
+		for _, fn := range w.RepoFuncs("internal/serialization") {
+			instrs(fn, func(in ssa.Instruction) {
+				mu, ok := in.(*ssa.MapUpdate)
+				if !ok || !(isGlobalLoad(mu.Map, gm) || isGlobalLoad(mu.Map, grm)) {
+					return
+				}
+				which := "name->type"
+				if isGlobalLoad(mu.Map, grm) {
+					which = "type->name"
+				}
+				if origin(fn).Name() != "GenericRegister" {
+					r.Fail("C12.registry-bijective", "registry "+which+" written in "+w.fname(fn), mu.Pos(), "the type registry is written outside GenericRegister")
+					return
+				}
+				nw++
+				okm, okr := missGuard(mu.Block(), gm), missGuard(mu.Block(), grm)
+				r.Check(okm && okr, "C12.registry-bijective", "GenericRegister writes "+which, mu.Pos(), "on the miss arms of comma-ok lookups of both registries",
+					fmt.Sprintf("the registry entry is written without establishing that the name is unused (%v) and the type is unregistered (%v): two types can share a name, and a checkpoint written as one type is silently decoded as the other", okm, okr))
+			})
+		}
+		if nw < 2 {
+			undecidedf("C12.registry-bijective: %d registry writes in GenericRegister (floor 2)", nw)
+		}
+	}
+
 	// ---- fresh-holders
 	r.Rule("C12.fresh-holders", "reflect.New targets handed to an unmarshal call inside a loop are allocated inside that loop", 1)
 	nh := 0
